@@ -4,18 +4,25 @@ package obiuniq
 
 // C06 — dereplication conserves counts and merges exactly the identical records.
 //
-// Engine B (outer enumeration): every multiset of at most N records over
+// Engine B (outer enumeration). Every multiset of records over a finite alphabet
 //   2 sequences x category attribute c {absent, "x", "y"} x count {1 (no attribute), 2}
 //   x merge attribute k {absent, scalar "u", already a merged_k map}
-// x every distinct input permutation x batch size {1,2,all} x chunk count {1,2,3}
-// x {memory, disk} x --no-singleton x workers {1,2} x annotation representation {native Go values,
-// values as produced by the JSON header parser} is pushed through the real obiuniq pipeline
-// (CLIUnique -> obichunk.IUniqueSequence -> Distribute / ISequenceChunk[OnDisk] / ISequenceSubChunk /
-// IMergeSequenceBatch) running natively on real goroutines. Plus the round trip
-// uniq -m k -> MakeDemergeWorker(k) -> uniq -m k.
+// x every distinct input ordering x batch size {1,2,all} x chunk count {1,2,3} x {memory, disk}
+// x --no-singleton x workers {1,2} x annotation representation {Go values, values as produced by the
+// JSON header parser} x requested options {-c c -m k, -m k, -c c, none} is pushed through the real
+// obiuniq pipeline (CLIUnique -> obichunk.IUniqueSequence -> Distribute / ISequenceChunk[OnDisk] /
+// ISequenceSubChunk / IMergeSequenceBatch) running natively on real goroutines, plus the round trip
+// uniq -m k -> MakeDemergeWorker(k) -> uniq -m k. The blocks (alphabet, sizes, configurations) of each
+// tier are listed by c06blocks and reported in bounds.blocks.
 //
 // Oracle: a Go map keyed by (sequence, category value or NA) accumulating count and per-value
-// weights; the output is compared as a set keyed by that key.
+// weights; the output is compared as a set keyed by that key (count, merged_k, no-singleton).
+// Nothing else about the output records is constrained.
+//
+// Process structure: the test started by /verif/check is a supervisor; cases run in child processes
+// of the same binary so that a panic inside a pipeline goroutine is a verdict (see "process
+// structure" below). Scheduling is left to the Go runtime: repetitions are sampling, labelled so.
+// Debug knobs (never set by /verif/check): C06_ONLY=<block name prefix>, C06_DRY=1, C06_BENCH=1.
 
 import (
 	"bytes"
@@ -828,51 +835,50 @@ func c06blocks(thorough bool) []c06block {
 	}
 	rtMem := c06axes{c06batchEnds, []int{1, 3}, false, []bool{false}, []int{1, 2}, []bool{false}, ck}.cfgs
 	rtDisk := c06axes{c06batchAll, []int{1, 3}, true, []bool{false}, []int{1, 2}, []bool{true}, ck}.cfgs
+	// within one input size the blocks run in this order: the cheap and diverse ones first, the big
+	// memory cross products last (a run stopped by its deadline loses the tail of the largest size only)
+	repeatCfgs := func(n int) []c06cfg {
+		return []c06cfg{{Batch: 1, Chunks: 2, Workers: 2, Cat: true, Merge: true},
+			{Batch: 1, Chunks: 2, Workers: 2, Cat: true, Merge: true, Disk: true, Parsed: true}}
+	}
 	if !thorough {
-		add(c06block{Name: "mem/full", Alphabet: "A36", Nmax: 2, AllOrders: true, Cfgs: full(false, both)})
-		add(c06block{Name: "mem/full", Alphabet: "A12", Nmin: 3, Nmax: 3, AllOrders: true, Cfgs: full(false, both)})
-		add(c06block{Name: "mem/full-parsed", Alphabet: "A24", Nmin: 3, Nmax: 3, AllOrders: true, Cfgs: full(false, []bool{true})})
-		add(c06block{Name: "mem/full-parsed", Alphabet: "A8", Nmin: 4, Nmax: 4, AllOrders: true, Cfgs: full(false, []bool{true})})
-		add(c06block{Name: "mem/na-literal", Alphabet: "ANA", Nmax: 3, AllOrders: true, Cfgs: full(false, both)})
-		add(c06block{Name: "mem/options", Alphabet: "A36", Nmax: 2, AllOrders: true,
-			Cfgs: c06axes{c06batchEnds, []int{1, 2, 3}, false, both, []int{1, 2}, []bool{true}, other}.cfgs})
 		add(c06block{Name: "disk/full", Alphabet: "A24", Nmax: 2, AllOrders: true, Cfgs: full(true, []bool{true})})
 		add(c06block{Name: "disk/3", Alphabet: "A12", Nmin: 3, Nmax: 3,
 			Cfgs: c06axes{c06batchEnds, []int{1, 2, 3}, true, []bool{false}, []int{1, 2}, []bool{true}, ck}.cfgs})
 		add(c06block{Name: "disk/options", Alphabet: "A12", Nmax: 2, AllOrders: true,
 			Cfgs: c06axes{c06batchAll, []int{1, 3}, true, both, []int{1, 2}, []bool{true}, other}.cfgs})
-		add(c06block{Name: "repeat", Alphabet: "A12", Nmin: 1, Nmax: 2, AllOrders: true, Reps: 4,
-			Cfgs: func(n int) []c06cfg {
-				return []c06cfg{{Batch: 1, Chunks: 2, Workers: 2, Cat: true, Merge: true},
-					{Batch: 1, Chunks: 2, Workers: 2, Cat: true, Merge: true, Disk: true, Parsed: true}}
-			}})
+		add(c06block{Name: "repeat", Alphabet: "A12", Nmin: 1, Nmax: 2, AllOrders: true, Reps: 4, Cfgs: repeatCfgs})
+		add(c06block{Name: "roundtrip/disk", Kind: "roundtrip", Alphabet: "A12", Nmax: 2, AllOrders: true, Cfgs: rtDisk, Texts: []bool{true}})
 		add(c06block{Name: "roundtrip/mem", Kind: "roundtrip", Alphabet: "A36", Nmax: 2, AllOrders: true, Cfgs: rtMem, Texts: both})
 		add(c06block{Name: "roundtrip/mem", Kind: "roundtrip", Alphabet: "A12", Nmin: 3, Nmax: 3, AllOrders: true, Cfgs: rtMem, Texts: both})
-		add(c06block{Name: "roundtrip/disk", Kind: "roundtrip", Alphabet: "A12", Nmax: 2, AllOrders: true, Cfgs: rtDisk, Texts: []bool{true}})
+		add(c06block{Name: "mem/na-literal", Alphabet: "ANA", Nmax: 3, AllOrders: true, Cfgs: full(false, both)})
+		add(c06block{Name: "mem/options", Alphabet: "A36", Nmax: 2, AllOrders: true,
+			Cfgs: c06axes{c06batchEnds, []int{1, 2, 3}, false, both, []int{1, 2}, []bool{true}, other}.cfgs})
+		add(c06block{Name: "mem/full", Alphabet: "A36", Nmax: 2, AllOrders: true, Cfgs: full(false, both)})
+		add(c06block{Name: "mem/full", Alphabet: "A12", Nmin: 3, Nmax: 3, AllOrders: true, Cfgs: full(false, both)})
+		add(c06block{Name: "mem/full-parsed", Alphabet: "A24", Nmin: 3, Nmax: 3, AllOrders: true, Cfgs: full(false, []bool{true})})
+		add(c06block{Name: "mem/full-parsed", Alphabet: "A8", Nmin: 4, Nmax: 4, AllOrders: true, Cfgs: full(false, []bool{true})})
 		return bl
 	}
-	add(c06block{Name: "mem/full", Alphabet: "A36", Nmax: 3, AllOrders: true, Cfgs: full(false, both)})
-	add(c06block{Name: "mem/full", Alphabet: "A12", Nmin: 4, Nmax: 4, AllOrders: true, Cfgs: full(false, both)})
-	add(c06block{Name: "mem/full", Alphabet: "A6", Nmin: 5, Nmax: 5, AllOrders: true, Cfgs: full(false, both)})
-	add(c06block{Name: "mem/na-literal", Alphabet: "ANA", Nmax: 3, AllOrders: true, Cfgs: full(false, both)})
+	add(c06block{Name: "disk/full", Alphabet: "A36", Nmax: 2, AllOrders: true, Cfgs: full(true, both)})
+	add(c06block{Name: "disk/full", Alphabet: "A12", Nmin: 3, Nmax: 3, AllOrders: true, Cfgs: full(true, []bool{true})})
 	add(c06block{Name: "disk/na-literal", Alphabet: "ANA", Nmax: 2, AllOrders: true, Cfgs: full(true, []bool{true})})
+	add(c06block{Name: "disk/options", Alphabet: "A24", Nmax: 2, AllOrders: true,
+		Cfgs: c06axes{c06batchEnds, []int{1, 2, 3}, true, both, []int{1, 2}, []bool{true}, other}.cfgs})
+	add(c06block{Name: "repeat", Alphabet: "A12", Nmin: 1, Nmax: 3, AllOrders: true, Reps: 5, Cfgs: repeatCfgs})
+	add(c06block{Name: "roundtrip/disk", Kind: "roundtrip", Alphabet: "A24", Nmax: 2, AllOrders: true, Cfgs: rtDisk, Texts: []bool{true}})
+	add(c06block{Name: "roundtrip/disk", Kind: "roundtrip", Alphabet: "A12", Nmin: 3, Nmax: 3, Cfgs: rtDisk, Texts: []bool{true}})
+	add(c06block{Name: "roundtrip/mem", Kind: "roundtrip", Alphabet: "A36", Nmax: 2, AllOrders: true, Cfgs: rtMem, Texts: both})
+	add(c06block{Name: "roundtrip/mem", Kind: "roundtrip", Alphabet: "A24", Nmin: 3, Nmax: 3, AllOrders: true, Cfgs: rtMem, Texts: both})
+	add(c06block{Name: "roundtrip/mem", Kind: "roundtrip", Alphabet: "A12", Nmin: 4, Nmax: 4, Cfgs: rtMem, Texts: both})
+	add(c06block{Name: "mem/na-literal", Alphabet: "ANA", Nmax: 3, AllOrders: true, Cfgs: full(false, both)})
 	add(c06block{Name: "mem/options", Alphabet: "A36", Nmax: 2, AllOrders: true,
 		Cfgs: c06axes{c06batches, []int{1, 2, 3}, false, both, []int{1, 2}, both, other}.cfgs})
 	add(c06block{Name: "mem/options", Alphabet: "A12", Nmin: 3, Nmax: 3, AllOrders: true,
 		Cfgs: c06axes{c06batches, []int{1, 2, 3}, false, both, []int{1, 2}, both, other}.cfgs})
-	add(c06block{Name: "disk/full", Alphabet: "A36", Nmax: 2, AllOrders: true, Cfgs: full(true, both)})
-	add(c06block{Name: "disk/full", Alphabet: "A12", Nmin: 3, Nmax: 3, AllOrders: true, Cfgs: full(true, []bool{true})})
-	add(c06block{Name: "disk/options", Alphabet: "A24", Nmax: 2, AllOrders: true,
-		Cfgs: c06axes{c06batchEnds, []int{1, 2, 3}, true, both, []int{1, 2}, []bool{true}, other}.cfgs})
-	add(c06block{Name: "repeat", Alphabet: "A12", Nmin: 1, Nmax: 3, AllOrders: true, Reps: 5,
-		Cfgs: func(n int) []c06cfg {
-			return []c06cfg{{Batch: 1, Chunks: 2, Workers: 2, Cat: true, Merge: true},
-				{Batch: 1, Chunks: 2, Workers: 2, Cat: true, Merge: true, Disk: true, Parsed: true}}
-		}})
-	add(c06block{Name: "roundtrip/mem", Kind: "roundtrip", Alphabet: "A36", Nmax: 3, AllOrders: true, Cfgs: rtMem, Texts: both})
-	add(c06block{Name: "roundtrip/mem", Kind: "roundtrip", Alphabet: "A12", Nmin: 4, Nmax: 4, Cfgs: rtMem, Texts: both})
-	add(c06block{Name: "roundtrip/disk", Kind: "roundtrip", Alphabet: "A24", Nmax: 2, AllOrders: true, Cfgs: rtDisk, Texts: []bool{true}})
-	add(c06block{Name: "roundtrip/disk", Kind: "roundtrip", Alphabet: "A12", Nmin: 3, Nmax: 3, Cfgs: rtDisk, Texts: []bool{true}})
+	add(c06block{Name: "mem/full", Alphabet: "A36", Nmax: 3, AllOrders: true, Cfgs: full(false, both)})
+	add(c06block{Name: "mem/full", Alphabet: "A12", Nmin: 4, Nmax: 4, AllOrders: true, Cfgs: full(false, both)})
+	add(c06block{Name: "mem/full", Alphabet: "A6", Nmin: 5, Nmax: 5, AllOrders: true, Cfgs: full(false, both)})
 	return bl
 }
 
